@@ -20,7 +20,9 @@ FORMALS = {k.localpart: [a.localpart for a in cls.FORMAL_ATTRIBUTES] for k, cls 
 REF_ATTRS = {a.localpart for a in PROV_ATTRIBUTE_QNAMES}
 TIME_ATTRS = {a.localpart for a in PROV_ATTRIBUTE_LITERALS}
 STRINGS = ["", "a", "hello world", 'say "hi"', "line1\nline2", "tab\there", "café 世界", "a<b & c>d",
-           "back\\slash", "x" * 40, "'single'", "ümlaut", "5", "true"]
+           "back\\slash", "x" * 40, "'single'", "ümlaut", "5", "true",
+           'multi\nline ending in a quote"', 'has """ inside\nsecond line', "carriage\rreturn", '"', '""', "\\",
+           "ends with backslash\\", '\\"', "prov:looks-like-a-name", " leading and trailing "]
 LANGS = ["en", "fr", "en-GB"]
 FOREIGN_TYPES = [("ex", "http://a/", "mytype"), ("xsd", XSD.uri, "decimal"), ("xsd", XSD.uri, "gYear"),
                  ("xsd", XSD.uri, "short"), ("foo", "http://other/", "T")]
